@@ -158,6 +158,18 @@ void h_wmemmove(void) { VF_INPUT(unsigned char, so); VF_INPUT(unsigned char, dof
   VF_ASSERT(r == buf + dof && buf[g] == ((g >= dof && g < dof + n) ? buf_in[so + (g - dof)] : buf_in[g]), "wmemmove: any overlap, nothing else changes");
   VF_REACH(); }
 
+/*@GROUP name=u_memset props=C18,C02 kind=U mode=contract enforce=d_memset loops=1 standin=mem@*/
+void h_u_memset(void) { unsigned char *s; int c; unsigned long n; vf_k = nondet_ulong(); d_memset(s, c, n); VF_REACH(); }
+
+/*@GROUP name=u_memcpy props=C18,C02 kind=U mode=contract enforce=d_memcpy loops=1 standin=mem@*/
+void h_u_memcpy(void) { void *d; void *s; unsigned long n; vf_k = nondet_ulong(); d_memcpy(d, s, n); VF_REACH(); }
+
+/*@GROUP name=u_memchr props=C18,C02 kind=U mode=contract enforce=d_memchr loops=1 standin=mem@*/
+void h_u_memchr(void) { unsigned char *p; unsigned char ch; unsigned long n; vf_k = nondet_ulong(); d_memchr(p, ch, n); VF_REACH(); }
+
+/*@GROUP name=u_strlen props=C18,C02 kind=U mode=contract enforce=d_strlen loops=1 standin=strlen_cmp_ascii@*/
+void h_u_strlen(void) { char *s; vf_n = nondet_ulong(); vf_k = nondet_ulong(); d_strlen(s); VF_REACH(); }
+
 /* ---- character classification: ISO C 7.4.1 "C" locale class definitions as explicit range predicates ---- */
 /*@COMMON@*/
 #define R_UPPER(c) ((c) >= 'A' && (c) <= 'Z')
